@@ -1113,4 +1113,495 @@ theorem replaces_higher {n o : Nat} (h : replaces n o = true) (hno : o * 101 < t
   rw [Nat.mod_eq_of_lt hno] at h
   omega
 
+/-! ### more association-list facts (lookup form) -/
+
+theorem alookup_aerase {α} (m : List (Nat × α)) (k k' : Nat) :
+    alookup (aerase m k) k' = if k = k' then none else alookup m k' := by
+  induction m with
+  | nil => simp [aerase, alookup]
+  | cons a r ih =>
+    obtain ⟨a1, a2⟩ := a
+    simp only [aerase]
+    by_cases h : a1 = k
+    · subst h
+      simp only [if_true, ih, alookup]
+      by_cases h2 : a1 = k' <;> simp [h2]
+    · simp only [h, if_false, alookup, ih]
+      by_cases h2 : a1 = k'
+      · subst h2
+        have : ¬ k = a1 := fun e => h e.symm
+        simp [this]
+      · simp [h2]
+
+theorem alookup_of_mem {α} {m : List (Nat × α)} {k : Nat} {v : α} (hn : (m.map (·.1)).Nodup) (h : (k, v) ∈ m) :
+    alookup m k = some v := by
+  induction m with
+  | nil => cases h
+  | cons a r ih =>
+    obtain ⟨a1, a2⟩ := a
+    simp only [List.map_cons, List.nodup_cons] at hn
+    simp only [List.mem_cons, Prod.mk.injEq] at h
+    rcases h with ⟨rfl, rfl⟩ | h
+    · simp [alookup]
+    · have : a1 ≠ k := by
+        intro e; subst e
+        exact hn.1 (List.mem_map.mpr ⟨(a1, v), h, rfl⟩)
+      simp only [alookup, this, if_false]
+      exact ih hn.2 h
+
+theorem keys_ainsert_nodup {α} {m : List (Nat × α)} (k : Nat) (v : α) (hn : (m.map (·.1)).Nodup) :
+    ((ainsert m k v).map (·.1)).Nodup := by
+  induction m with
+  | nil => simp [ainsert]
+  | cons a r ih =>
+    obtain ⟨a1, a2⟩ := a
+    simp only [List.map_cons, List.nodup_cons] at hn
+    simp only [ainsert]
+    split
+    · rename_i he; subst he
+      simp only [List.map_cons, List.nodup_cons]; exact hn
+    · rename_i hne
+      simp only [List.map_cons, List.nodup_cons]
+      refine ⟨?_, ih hn.2⟩
+      intro hm
+      obtain ⟨x, hx, hx1⟩ := List.mem_map.mp hm
+      rcases mem_ainsert hx with h | h
+      · cases h; exact hne hx1.symm
+      · exact hn.1 (List.mem_map.mpr ⟨x, h, hx1⟩)
+
+theorem keys_aerase_nodup {α} {m : List (Nat × α)} (k : Nat) (hn : (m.map (·.1)).Nodup) :
+    ((aerase m k).map (·.1)).Nodup := ((aerase_sublist m k).map _).nodup hn
+
+theorem alookup_eraseAll (m : List (Nat × VTx)) (ts : List Tx) (h : Nat) :
+    alookup (eraseAll m ts) h = if ∃ t ∈ ts, t.hash = h then none else alookup m h := by
+  induction ts generalizing m with
+  | nil => simp [eraseAll]
+  | cons t r ih =>
+    simp only [eraseAll]
+    rw [ih, alookup_aerase]
+    by_cases h1 : t.hash = h
+    · have : ∃ x ∈ t :: r, x.hash = h := ⟨t, by simp, h1⟩
+      simp [h1]
+    · by_cases h2 : ∃ x ∈ r, x.hash = h
+      · obtain ⟨x, hx, hxh⟩ := h2
+        have : ∃ x ∈ t :: r, x.hash = h := ⟨x, List.mem_cons_of_mem _ hx, hxh⟩
+        have h2' : ∃ x ∈ r, x.hash = h := ⟨x, hx, hxh⟩
+        simp [h2']
+      · have : ¬ ∃ x ∈ t :: r, x.hash = h := by
+          rintro ⟨x, hx, hxh⟩
+          simp only [List.mem_cons] at hx
+          rcases hx with rfl | hx
+          · exact h1 hxh
+          · exact h2 ⟨x, hx, hxh⟩
+        simp [h1, h2]
+
+/-! ### the nonce-sorted list -/
+
+def Sorted (l : SMap) : Prop := l.Pairwise fun x y => x.1 < y.1
+
+theorem alookup_put (l : SMap) (t : Tx) (n : Nat) : alookup (l.put t) n = if t.nonce = n then some t else alookup l n := by
+  induction l with
+  | nil => simp [SMap.put, alookup]
+  | cons a r ih =>
+    obtain ⟨k, x⟩ := a
+    simp only [SMap.put]
+    split
+    · simp only [alookup]
+    · split
+      · rename_i hk
+        simp only [alookup, hk]
+        by_cases h2 : k = n <;> simp [h2]
+      · rename_i h1 h2
+        simp only [alookup, ih]
+        by_cases h3 : k = n
+        · subst h3
+          have : ¬ t.nonce = k := h2
+          simp [this]
+        · simp [h3]
+
+theorem put_sorted {l : SMap} (t : Tx) (h : Sorted l) : Sorted (l.put t) := by
+  unfold Sorted at h ⊢
+  induction l with
+  | nil => simp [SMap.put]
+  | cons a r ih =>
+    obtain ⟨k, x⟩ := a
+    rw [List.pairwise_cons] at h
+    simp only [SMap.put]
+    split
+    · rename_i hlt
+      rw [List.pairwise_cons]
+      refine ⟨?_, List.pairwise_cons.mpr h⟩
+      intro y hy
+      simp only [List.mem_cons] at hy
+      rcases hy with rfl | hy
+      · exact hlt
+      · exact Nat.lt_trans hlt (h.1 y hy)
+    · split
+      · rename_i hk
+        rw [List.pairwise_cons]; exact ⟨h.1, h.2⟩
+      · rename_i h1 h2
+        rw [List.pairwise_cons]
+        refine ⟨?_, ih h.2⟩
+        intro y hy
+        rcases mem_put hy with hy | hy
+        · cases hy; simp only; omega
+        · exact h.1 y hy
+
+theorem mem_put_self (l : SMap) (t : Tx) : (t.nonce, t) ∈ l.put t := by
+  induction l with
+  | nil => simp [SMap.put]
+  | cons a r ih =>
+    obtain ⟨k, x⟩ := a
+    simp only [SMap.put]
+    split
+    · simp
+    · split
+      · rename_i hk; simp [hk]
+      · exact List.mem_cons_of_mem _ ih
+
+theorem sorted_alookup_iff {l : SMap} (h : Sorted l) (n : Nat) (t : Tx) : alookup l n = some t ↔ (n, t) ∈ l := by
+  constructor
+  · exact alookup_some_mem
+  · intro hm
+    apply alookup_of_mem _ hm
+    unfold Sorted at h
+    exact (List.pairwise_map.mpr (h.imp (fun hlt => Nat.ne_of_lt hlt)))
+
+theorem forward_spec {l : SMap} (h : Sorted l) (thr : Nat) :
+    Sorted (l.forward thr).2 ∧
+    (∀ n, alookup (l.forward thr).2 n = if n < thr then none else alookup l n) ∧
+    (∀ t, t ∈ (l.forward thr).1 ↔ ∃ n, n < thr ∧ alookup l n = some t) := by
+  unfold Sorted at h ⊢
+  induction l with
+  | nil => simp [SMap.forward, alookup]
+  | cons a r ih =>
+    obtain ⟨k, x⟩ := a
+    rw [List.pairwise_cons] at h
+    simp only [SMap.forward]
+    by_cases hk : k < thr
+    · simp only [hk, if_true]
+      obtain ⟨i1, i2, i3⟩ := ih h.2
+      refine ⟨i1, ?_, ?_⟩
+      · intro n
+        rw [i2 n]
+        by_cases hn : n < thr
+        · simp [hn]
+        · have : ¬ k = n := by omega
+          simp [hn, alookup, this]
+      · intro t
+        simp only [List.mem_cons, i3 t, alookup]
+        constructor
+        · rintro (rfl | ⟨n, hn, ha⟩)
+          · exact ⟨k, hk, by simp⟩
+          · refine ⟨n, hn, ?_⟩
+            have : ¬ k = n := by
+              intro e; subst e
+              have := h.1 (k, t) (alookup_some_mem ha)
+              simp at this
+            simp [this, ha]
+        · rintro ⟨n, hn, ha⟩
+          by_cases he : k = n
+          · simp only [he, if_true, Option.some.injEq] at ha; exact Or.inl ha.symm
+          · simp only [he, if_false] at ha; exact Or.inr ⟨n, hn, ha⟩
+    · simp only [hk, if_false]
+      refine ⟨List.pairwise_cons.mpr h, ?_, ?_⟩
+      · intro n
+        by_cases hn : n < thr
+        · have : ¬ k = n := by omega
+          simp only [hn, if_true, alookup, this, if_false]
+          cases hl : alookup r n with
+          | none => rfl
+          | some y => have := h.1 (n, y) (alookup_some_mem hl); simp at this; omega
+        · simp [hn]
+      · intro t
+        simp only [List.not_mem_nil, false_iff, not_exists, not_and]
+        intro n hn ha
+        simp only [alookup] at ha
+        by_cases he : k = n
+        · omega
+        · simp only [he, if_false] at ha
+          have := h.1 (n, t) (alookup_some_mem ha); simp at this; omega
+
+theorem aerase_sorted {l : SMap} (n : Nat) (h : Sorted l) : Sorted (aerase l n) :=
+  List.Pairwise.sublist (aerase_sublist l n) h
+
+theorem forward_sub (l : SMap) (thr : Nat) : ∀ x ∈ (l.forward thr).2, x ∈ l := (forward_sublist l thr).subset
+
+/-! ### the two-way invariant between `validTxMap` and the per-sender lists -/
+
+/-- `tx.Nonce + 1` does not wrap for the EIP-155 transactions of the history -/
+def NonceBound (U : List Tx) : Prop := ∀ t ∈ U, t.eip = true → t.nonce + 1 < two32
+
+structure PoolInv2 (p : Pool) : Prop where
+  keys : (p.eip.map (·.1)).Nodup
+  slots : ∀ a l, alookup p.eip a = some l → Sorted l ∧ ∀ n t, alookup l n = some t → t.nonce = n ∧ t.payer = a
+  fwd : ∀ h e, alookup p.valid h = some e → e.tx.eip = true →
+    ∃ l, alookup p.eip e.tx.payer = some l ∧ alookup l e.tx.nonce = some e.tx
+  bwd : ∀ a l n t, alookup p.eip a = some l → alookup l n = some t → ∃ e, alookup p.valid t.hash = some e ∧ e.tx = t
+  usr : ∀ a l, alookup p.eip a = some l → l ≠ [] → (alookup p.user a).isSome = true
+
+theorem PoolInv2.empty : PoolInv2 Pool.empty :=
+  ⟨by simp [Pool.empty], by simp [Pool.empty, alookup], by simp [Pool.empty, alookup], by simp [Pool.empty, alookup],
+   by simp [Pool.empty, alookup]⟩
+
+theorem list_tx_ok {U c p} (hi : PoolInv U c p) {a : Nat} {l : SMap} {n : Nat} {t : Tx}
+    (ha : alookup p.eip a = some l) (hn : alookup l n = some t) : t.eip = true ∧ t ∈ U :=
+  hi.lists t (mem_eipTxs.mpr ⟨a, l, n, alookup_some_mem ha, alookup_some_mem hn⟩)
+
+theorem valid_ent {U c p} (hi : PoolInv U c p) {h : Nat} {e : VTx} (hl : alookup p.valid h = some e) : EntryOK U c h e :=
+  hi.ent _ (alookup_some_mem hl)
+
+/-- the state after an accepted EIP-155 submission (`L` = the sender's list before, `rep` = what sat in the slot) -/
+theorem inv2_accept {U c p} (hi : PoolInv U c p) (h2 : PoolInv2 p) (hc : NoCollision U) (e : VTx)
+    (hu : e.tx ∈ U) (he : e.tx.eip = true) (L : SMap) (hL : (alookup p.eip e.tx.payer).getD [] = L)
+    (rep : Option Tx) (hrep : alookup L e.tx.nonce = rep) (user' : List (Nat × UserInfo))
+    (hus : ∀ a, (alookup p.user a).isSome = true → (alookup user' a).isSome = true)
+    (hup : (alookup user' e.tx.payer).isSome = true) :
+    alookup (dropReplaced p rep).valid e.tx.hash = none ∧
+    PoolInv2 ⟨ainsert (dropReplaced p rep).valid e.tx.hash e, ainsert p.eip e.tx.payer (L.put e.tx), user'⟩ := by
+  generalize hV : (dropReplaced p rep).valid = V
+  have hl0 : ∀ l, alookup p.eip e.tx.payer = some l → L = l := by
+    intro l hl; rw [← hL]; simp [hl]
+  have sl0 : Sorted L ∧
+      ∀ n x, alookup L n = some x → x.nonce = n ∧ x.payer = e.tx.payer ∧ x ∈ U ∧
+        ∃ ex, alookup p.valid x.hash = some ex ∧ ex.tx = x := by
+    cases hl : alookup p.eip e.tx.payer with
+    | none =>
+      have : L = [] := by rw [← hL]; simp [hl]
+      subst this; simp [Sorted, alookup]
+    | some l =>
+      have := hl0 l hl; subst this
+      refine ⟨(h2.slots _ L hl).1, ?_⟩
+      intro n x hx
+      exact ⟨((h2.slots _ L hl).2 n x hx).1, ((h2.slots _ L hl).2 n x hx).2, (list_tx_ok hi hl hx).2, h2.bwd _ L n x hl hx⟩
+  have fwd0 : ∀ h' e', alookup p.valid h' = some e' → e'.tx.eip = true → e'.tx.payer = e.tx.payer →
+      alookup L e'.tx.nonce = some e'.tx := by
+    intro h' e' hv hee hp
+    obtain ⟨l, hl, hn⟩ := h2.fwd h' e' hv hee
+    rw [hp] at hl
+    rw [hl0 l hl]; exact hn
+  -- lookups in V
+  have hVsub : ∀ h' e', alookup V h' = some e' → alookup p.valid h' = some e' ∧ (∀ o, rep = some o → o.hash ≠ h') := by
+    intro h' e' hv
+    rw [← hV] at hv
+    cases rep with
+    | none => exact ⟨hv, fun o ho => by cases ho⟩
+    | some o =>
+      simp only [dropReplaced, alookup_aerase] at hv
+      by_cases ho : o.hash = h'
+      · simp [ho] at hv
+      · simp only [ho, if_false] at hv
+        exact ⟨hv, fun o' ho' => by cases ho'; exact ho⟩
+  have hVsup : ∀ h' e', alookup p.valid h' = some e' → (∀ o, rep = some o → o.hash ≠ h') → alookup V h' = some e' := by
+    intro h' e' hv hno
+    rw [← hV]
+    cases rep with
+    | none => exact hv
+    | some o =>
+      simp only [dropReplaced, alookup_aerase]
+      simp [hno o rfl, hv]
+  have hfresh : alookup V e.tx.hash = none := by
+    cases hv : alookup V e.tx.hash with
+    | none => rfl
+    | some e0 =>
+      obtain ⟨hv0, hno⟩ := hVsub _ _ hv
+      have h0 := valid_ent hi hv0
+      have e0t : e0.tx = e.tx := hc _ h0.2.1 _ hu h0.1
+      have := fwd0 _ _ hv0 (by rw [e0t]; exact he) (by rw [e0t])
+      rw [e0t, hrep] at this
+      exact absurd rfl (hno e.tx this)
+  refine ⟨hfresh, ?_, ?_, ?_, ?_, ?_⟩
+  · exact keys_ainsert_nodup _ _ h2.keys
+  · intro a l hal
+    simp only [alookup_ainsert] at hal
+    by_cases hp : e.tx.payer = a
+    · rw [if_pos hp] at hal
+      have hal' := Option.some.inj hal
+      subst hal'
+      refine ⟨put_sorted _ sl0.1, ?_⟩
+      intro n t ht
+      rw [alookup_put] at ht
+      by_cases hn : e.tx.nonce = n
+      · rw [if_pos hn] at ht; have := Option.some.inj ht; subst this; exact ⟨hn, hp⟩
+      · rw [if_neg hn] at ht
+        exact ⟨(sl0.2 n t ht).1, hp ▸ (sl0.2 n t ht).2.1⟩
+    · rw [if_neg hp] at hal
+      exact h2.slots a l hal
+  · intro h' e' hv hee
+    simp only [alookup_ainsert] at hv ⊢
+    by_cases hh : e.tx.hash = h'
+    · rw [if_pos hh] at hv
+      have := Option.some.inj hv; subst this
+      exact ⟨L.put e.tx, by simp, by rw [alookup_put]; simp⟩
+    · rw [if_neg hh] at hv
+      obtain ⟨hv0, hno⟩ := hVsub _ _ hv
+      by_cases hp : e'.tx.payer = e.tx.payer
+      · refine ⟨L.put e.tx, by simp [hp], ?_⟩
+        rw [alookup_put]
+        have hold := fwd0 _ _ hv0 hee hp
+        by_cases hn : e.tx.nonce = e'.tx.nonce
+        · -- the slot of `e'` is the one being written: then `e'` is the replaced transaction, which left `V`
+          rw [← hn, hrep] at hold
+          have := (valid_ent hi hv0).1
+          exact absurd this (hno e'.tx hold)
+        · simp [hn, hold]
+      · obtain ⟨l, hl, hn⟩ := h2.fwd h' e' hv0 hee
+        have : ¬ e.tx.payer = e'.tx.payer := fun x => hp x.symm
+        exact ⟨l, by simp [this, hl], hn⟩
+  · intro a l n t hal hn
+    simp only [alookup_ainsert] at hal ⊢
+    -- the replaced transaction, if any, sits in the written slot of this sender
+    have hrepo : ∀ o, rep = some o → o.nonce = e.tx.nonce ∧ o.payer = e.tx.payer ∧ o ∈ U := by
+      intro o ho
+      rw [ho] at hrep
+      exact ⟨(sl0.2 _ o hrep).1, (sl0.2 _ o hrep).2.1, (sl0.2 _ o hrep).2.2.1⟩
+    by_cases hp : e.tx.payer = a
+    · rw [if_pos hp] at hal
+      have hal' := Option.some.inj hal
+      subst hal'
+      rw [alookup_put] at hn
+      by_cases hnn : e.tx.nonce = n
+      · rw [if_pos hnn] at hn; have := Option.some.inj hn; subst this
+        exact ⟨e, by simp, rfl⟩
+      · rw [if_neg hnn] at hn
+        obtain ⟨x1, _, xu, ex, hex, hext⟩ := sl0.2 n t hn
+        have hne : ¬ e.tx.hash = t.hash := by
+          intro hh
+          have : t = e.tx := hc _ xu _ hu hh.symm
+          exact hnn (by rw [← this]; exact x1)
+        refine ⟨ex, ?_, hext⟩
+        rw [if_neg hne]
+        apply hVsup _ _ hex
+        intro o ho hh
+        have : o = t := hc _ (hrepo o ho).2.2 _ xu hh
+        exact hnn (by rw [← (hrepo o ho).1, this]; exact x1)
+    · rw [if_neg hp] at hal
+      obtain ⟨ex, hex, hext⟩ := h2.bwd a l n t hal hn
+      have tok := list_tx_ok hi hal hn
+      have tpa := ((h2.slots a l hal).2 n t hn).2
+      have hne : ¬ e.tx.hash = t.hash := by
+        intro hh
+        have : t = e.tx := hc _ tok.2 _ hu hh.symm
+        exact hp (by rw [← this]; exact tpa)
+      refine ⟨ex, ?_, hext⟩
+      rw [if_neg hne]
+      apply hVsup _ _ hex
+      intro o ho hh
+      have : o = t := hc _ (hrepo o ho).2.2 _ tok.2 hh
+      exact hp (by rw [← (hrepo o ho).2.1, this]; exact tpa)
+  · intro a l hal hne
+    simp only [alookup_ainsert] at hal
+    by_cases hp : e.tx.payer = a
+    · rw [← hp]; exact hup
+    · rw [if_neg hp] at hal
+      exact hus a (h2.usr a l hal hne)
+
+theorem inv2_congr {p q : Pool} (h2 : PoolInv2 p) (hv : q.valid = p.valid) (hu : q.user = p.user)
+    (hk : (q.eip.map (·.1)).Nodup) (he : ∀ a, alookup q.eip a = alookup p.eip a) : PoolInv2 q :=
+  ⟨hk, fun a l hal => h2.slots a l (by rw [← he]; exact hal),
+   fun h e hve hee => by
+    rw [hv] at hve
+    obtain ⟨l, hl, hn⟩ := h2.fwd h e hve hee
+    exact ⟨l, by rw [he]; exact hl, hn⟩,
+   fun a l n t hal hn => by rw [hv]; exact h2.bwd a l n t (by rw [← he]; exact hal) hn,
+   fun a l hal hne => by rw [hu]; exact h2.usr a l (by rw [← he]; exact hal) hne⟩
+
+theorem addTxList_inv2 {U c p} (hi : PoolInv U c p) (h2 : PoolInv2 p) (hc : NoCollision U) (e : VTx) (hu : e.tx ∈ U) :
+    PoolInv2 (addTxList p e).2.2 := by
+  unfold addTxList
+  by_cases he : e.tx.eip = true
+  · rw [if_pos he]
+    split
+    · exact h2
+    · -- what sits in the slot
+      generalize hL : (alookup p.eip e.tx.payer).getD [] = L
+      have hus : ∀ q : Pool, q.user = p.user → ∀ a, (alookup p.user a).isSome = true → (alookup (noteUser q e).user a).isSome = true := by
+        intro q hq a ha
+        unfold noteUser
+        split
+        · simp only [alookup_ainsert]
+          by_cases hp : e.tx.payer = a
+          · simp [hp]
+          · simp only [hp, if_false]; rw [hq]; exact ha
+        · rw [hq]; exact ha
+      have hup : ∀ q : Pool, (alookup (noteUser q e).user e.tx.payer).isSome = true := by
+        intro q
+        unfold noteUser
+        split
+        · simp [alookup_ainsert]
+        · rename_i x hx; simp [hx]
+      have hnv : ∀ q : Pool, (noteUser q e).valid = q.valid ∧ (noteUser q e).eip = q.eip := by
+        intro q; unfold noteUser; split <;> exact ⟨rfl, rfl⟩
+      cases hslot : alookup L e.tx.nonce with
+      | none =>
+        have hae : addEip p e.tx = (none, true, { p with eip := ainsert p.eip e.tx.payer (L.put e.tx) }) := by
+          unfold addEip; simp only [hL, SMap.get, hslot]
+        simp only [hae, dropReplaced, Bool.not_true, Bool.false_eq_true, if_false]
+        obtain ⟨hf, hinv⟩ := inv2_accept hi h2 hc e hu he L hL none hslot
+          (noteUser { p with eip := ainsert p.eip e.tx.payer (L.put e.tx) } e).user (hus _ rfl) (hup _)
+        simp only [dropReplaced] at hf hinv
+        unfold addValid
+        rw [(hnv _).1]
+        simp only [hf]
+        have : (noteUser { p with eip := ainsert p.eip e.tx.payer (L.put e.tx) } e).eip = ainsert p.eip e.tx.payer (L.put e.tx) := (hnv _).2
+        have hv' := (hnv { p with eip := ainsert p.eip e.tx.payer (L.put e.tx) }).1
+        refine inv2_congr hinv ?_ rfl ?_ ?_
+        · simp only
+        · simp only [this]; exact hinv.keys
+        · intro a; simp only [this]
+      | some o =>
+        by_cases hr : replaces e.tx.price o.price = true
+        · have hae : addEip p e.tx = (some o, true, { p with eip := ainsert p.eip e.tx.payer (L.put e.tx) }) := by
+            unfold addEip; simp only [hL, SMap.get, hslot, hr, if_true]
+          simp only [hae, dropReplaced, Bool.not_true, Bool.false_eq_true, if_false]
+          obtain ⟨hf, hinv⟩ := inv2_accept hi h2 hc e hu he L hL (some o) hslot
+            (noteUser { valid := aerase p.valid o.hash, eip := ainsert p.eip e.tx.payer (L.put e.tx), user := p.user } e).user
+            (hus _ rfl) (hup _)
+          simp only [dropReplaced] at hf hinv
+          unfold addValid
+          rw [(hnv _).1]
+          simp only [hf]
+          have := (hnv { valid := aerase p.valid o.hash, eip := ainsert p.eip e.tx.payer (L.put e.tx), user := p.user }).2
+          have hv' := (hnv { valid := aerase p.valid o.hash, eip := ainsert p.eip e.tx.payer (L.put e.tx), user := p.user }).1
+          refine inv2_congr hinv ?_ rfl ?_ ?_
+          · simp only
+          · simp only [this]; exact hinv.keys
+          · intro a; simp only [this]
+        · have hae : addEip p e.tx = (none, false, { p with eip := ainsert p.eip e.tx.payer L }) := by
+            unfold addEip; simp only [hL, SMap.get, hslot, hr]; simp
+          simp only [hae, dropReplaced, Bool.not_false, if_true]
+          -- the list existed (it has an element), re-inserting it changes no lookup
+          have hex : alookup p.eip e.tx.payer = some L := by
+            cases hl : alookup p.eip e.tx.payer with
+            | none => rw [hl] at hL; simp at hL; subst hL; simp [alookup] at hslot
+            | some l => rw [hl] at hL; simp at hL; rw [hL]
+          refine inv2_congr h2 rfl rfl (keys_ainsert_nodup _ _ h2.keys) ?_
+          intro a
+          simp only [alookup_ainsert]
+          by_cases hp : e.tx.payer = a
+          · simp [hp, ← hex]
+          · simp [hp]
+  · rw [if_neg he]
+    unfold addValid
+    split
+    · exact h2
+    · rename_i hn
+      simp only
+      refine ⟨h2.keys, h2.slots, ?_, ?_, h2.usr⟩
+      · intro h' e' hv hee
+        simp only [alookup_ainsert] at hv
+        by_cases hh : e.tx.hash = h'
+        · rw [if_pos hh] at hv; have := Option.some.inj hv; subst this; exact absurd hee he
+        · rw [if_neg hh] at hv; exact h2.fwd h' e' hv hee
+      · intro a l n t hal hnn
+        obtain ⟨ex, hex, hext⟩ := h2.bwd a l n t hal hnn
+        refine ⟨ex, ?_, hext⟩
+        simp only [alookup_ainsert]
+        have tok := list_tx_ok hi hal hnn
+        have : ¬ e.tx.hash = t.hash := by
+          intro hh
+          have : t = e.tx := hc _ tok.2 _ hu hh.symm
+          rw [this] at tok; exact he tok.1
+        rw [if_neg this]; exact hex
+
 end OntVerif.Proofs.TxPool
